@@ -9,12 +9,14 @@
 
 mod text;
 mod codec;
+mod engine;
 
 use std::panic::{catch_unwind, AssertUnwindSafe};
 
 /// Holds all state a sequence of requests may refer to.
 pub struct Session {
     alias: codec::AliasSession,
+    engine: engine::EngineSession,
 }
 
 impl Default for Session {
@@ -36,7 +38,7 @@ fn split_request(line: &str) -> (&str, &str, &str) {
 impl Session {
     /// Creates an empty session.
     pub fn new() -> Session {
-        Session { alias: codec::AliasSession::new() }
+        Session { alias: codec::AliasSession::new(), engine: engine::EngineSession::new() }
     }
 
     /// Silences the default panic hook (panics are reported in-band).
@@ -58,6 +60,7 @@ impl Session {
             "table" => codec::cmd_table(head),
             "roundtrip" => Ok(text::print_packet(&text::parse_packet(payload)?)),
             v if v.starts_with("alias.") => codec::cmd_alias(&mut self.alias, v, head),
+            v if v.starts_with("eng.") => self.engine.dispatch(v, head, payload),
             _ => Err(format!("unknown verb {}", verb)),
         }
     }
